@@ -184,6 +184,44 @@ pub fn run(p: &Params, rep: &mut Report) {
         ck.rep.sample(|| format!("a={} b={} c={} i={} n={}", fmt_w(&a), fmt_w(&b), fmt_w(&c), i, n));
     }
     ck.rep.count("random_tuples", nrand);
+    // exactly k non-overlapping occurrences, k around powers of two; patterns of exactly 2^j (+-1) characters
+    if p.shard < 6 {
+        let fill_sets: [&[u32]; 3] = [&[], &[0x7a], &[0x7a, 0x79, 0x7a]];
+        let pats: [&[u32]; 4] = [&[0x61], &[0x61, 0x62], &[0x61, 0x61], &[0x20AC, 0x61, 0x2FFFF]];
+        for &k in &[1usize, 7, 8, 9, 15, 16, 17, 31, 32, 33, 63, 64, 65, 127, 128, 129] {
+            for (fi, fill) in fill_sets.iter().enumerate() {
+                for (pi, pat) in pats.iter().enumerate() {
+                    if ((fi * 4 + pi) as u64) % 6 != p.shard {
+                        continue;
+                    }
+                    let mut subj: Vec<u32> = Vec::new();
+                    for _ in 0..k {
+                        subj.extend_from_slice(pat);
+                        subj.extend_from_slice(fill);
+                    }
+                    for repl in [&[][..], &[0x52][..], &[0x61, 0x61, 0x62][..]] {
+                        check_tuple(&mut ck, &subj, pat, repl, (subj.len() / 2) as i32, k as i32);
+                    }
+                    ck.rep.eval(Some(&format!("occ{}|{}|{}", k, fi, pi)));
+                    ck.rep.inc("exact_occurrence_count_tuples");
+                }
+            }
+        }
+        for &len in &[7usize, 8, 9, 15, 16, 17, 31, 32, 33, 63, 64, 65, 127, 128, 129, 255, 256, 257] {
+            // a pattern of exactly `len` characters with period 2, searched in a subject that starts with a near miss
+            let pat: Vec<u32> = (0..len).map(|i| if i % 2 == 0 { 0x61 } else { 0x62 }).collect();
+            let mut subj: Vec<u32> = vec![0x62, 0x62, 0x62];
+            subj.extend_from_slice(&pat);
+            subj.push(0x62);
+            subj.push(0x61);
+            let short: Vec<u32> = vec![0x61];
+            check_tuple(&mut ck, &subj, &pat, &[0x58], 0, len as i32);
+            check_tuple(&mut ck, &short, &pat, &[0x58], 0, 1);
+            check_tuple(&mut ck, &pat, &pat, &[], 0, len as i32);
+            ck.rep.eval(Some(&format!("plen{}", len)));
+            ck.rep.inc("exact_pattern_length_tuples");
+        }
+    }
     // long patterns with nested borders: p = u u u' x ... preceded in the subject by a partial occurrence of p
     let nb = p.size(300, 5000);
     for _ in 0..nb {
